@@ -1226,7 +1226,13 @@ def h_copy(a, **kw):
 
 
 def h_insert(arr, obj, values, axis=None):
-    raise OutsideModel("np.insert")
+    from .harness._vtk import h_insert as f
+    return f(arr, obj, values, axis)
+
+
+def h_savetxt(fname, X, *a, **kw):
+    from .harness._vtk import h_savetxt as f
+    return f(fname, X, *a, **kw)
 
 
 def h_iscomplexobj(a):
@@ -1242,7 +1248,7 @@ HANDLERS = dict(unique=h_unique, argmax=h_argmax, pad=h_pad, array_equal=h_array
                 flip=h_flip, squeeze=h_squeeze, expand_dims=h_expand_dims,
                 concatenate=h_concatenate, stack=h_stack, append=h_append, clip=h_clip,
                 any=h_any, all=h_all, sum=h_sum, dot=h_dot, can_cast=h_can_cast, shape=h_shape,
-                ndim=h_ndim, size=h_size, copy=h_copy, insert=h_insert,
+                ndim=h_ndim, size=h_size, copy=h_copy, insert=h_insert, savetxt=h_savetxt,
                 iscomplexobj=h_iscomplexobj, broadcast_to=h_broadcast_to)
 
 
@@ -1290,6 +1296,8 @@ class NPProxy:
 
     def asarray(self, x, dtype=None, **kw):
         dtype = _unwrap_dtype(dtype)
+        if hasattr(x, "__sarray__"):
+            x = x.__sarray__()
         if isinstance(x, SArray):
             return x if dtype is None or real_np.dtype(dtype) == x.dtype else x.astype(dtype)
         if is_elem(x):
